@@ -15,6 +15,8 @@ Oracle (independent of the model): a Python shadow of records and heartbeats com
 """
 from __future__ import annotations
 
+import time as _time
+
 from collections import Counter
 from typing import Any
 
@@ -278,6 +280,7 @@ def run(ctx: Ctx) -> None:
             ctx.obligation(f"correspondence ({k}) on Mem and SQLite == Lean model", v == 0, f"{v} disagreements")
         live_runner(ctx, clock)
         two_recovery_runs(ctx, clock)
+        fault_inside_a_recovery_run(ctx, clock)
         stale_scan_meets_taken(ctx, clock)
         poller_during_recovery(ctx, clock)
         large_backlog(ctx, clock)
@@ -286,6 +289,7 @@ def run(ctx: Ctx) -> None:
         drv.close()
     for kind in ("mem", "sqlite"):
         scan_vs_newcomer(ctx, kind)
+    live_runner_real_loop(ctx)
     ctx.assumptions += [
         "timestamps are µs-exact floats under the virtual clock (datetime.timestamp and time() are correctly rounded single divisions)",
         "theorem recovery_run_requeues_all_taken assumes nobody but the recovery run re-routes an invocation that is in a *_RECOVERY status (one run of each recovery task at a time: running_concurrency=TASK)",
@@ -325,6 +329,102 @@ def live_runner(ctx: Ctx, clock: VirtualClock) -> None:
                        {"backend": kind, "after_s": stolen_at})
         if not silent_seen:
             ctx.report(f"silent-runner-not-recovered[{kind}]", f"[{kind}] a runner silent for 45 min was never selected by the running-recovery scan", {"backend": kind})
+
+
+def fault_inside_a_recovery_run(ctx: Ctx, clock: VirtualClock) -> None:
+    """a storage fault strikes INSIDE a recovery run - the k-th `*_RECOVERY` write raises "database is locked" once.  The run fails;
+    the next one is fault-free; a healthy runner drains the queue.  `*_RECOVERY` is a one-way door (no scan looks at those statuses):
+    whatever the failed run had already taken must have been re-queued by it; nothing may stay in `*_RECOVERY`."""
+    import sqlite3
+
+    from pynenc.invocation.status import InvocationStatus as S
+
+    for kind in ("mem", "sqlite"):
+        for rk in ("pending", "running"):
+            for k in (1, 3, 5):
+                b = Back(ctx, kind, 5.0, 0.5, f"flt{rk}{k}")
+                dead = rctx("rDead")
+                ids = [b.task(j).invocation_id for j in range(5)]
+                for i in ids:
+                    b.o.set_invocation_status(i, S.PENDING, dead)
+                    if rk == "running":
+                        b.o.set_invocation_status(i, S.RUNNING, dead)
+                clock.advance(3_600_000_000)
+                b.o.register_runner_heartbeats(["recovery", "rB"])
+                real = type(b.o)._atomic_status_transition
+                seen = {"n": 0, "hit": False}
+
+                def faulty(self, inv_id, status, owner=None, _real=real, seen=seen, k=k):  # type: ignore[no-untyped-def]
+                    if status.value.endswith("_recovery"):
+                        seen["n"] += 1
+                        if seen["n"] == k and not seen["hit"]:
+                            seen["hit"] = True
+                            raise sqlite3.OperationalError("database is locked")
+                    return _real(self, inv_id, status, owner)
+
+                type(b.o)._atomic_status_transition = faulty  # type: ignore[method-assign]
+                try:
+                    out1 = run_recovery(b.app, rk)
+                finally:
+                    type(b.o)._atomic_status_transition = real  # type: ignore[method-assign]
+                clock.advance(60_000_000)
+                b.o.register_runner_heartbeats(["recovery", "rB"])
+                out2 = run_recovery(b.app, rk)
+                flush(b.app)
+                st = {i: b.rec(i)[0] for i in ids}
+                q = b.queue()
+                ctx.count()
+                ctx.distinct((kind, "fault-inside-run", rk, k))
+                stuck = [i for i in ids if st[i].endswith("_recovery")]
+                lost = [i for i in ids if st[i] in ("rerouted", "registered", "retry") and i not in q]
+                if stuck or lost or out2 != "done":
+                    ctx.report(f"recovery-fault-strands[{kind}]:{rk}",
+                               f"[{kind}] recover_{rk}_invocations over 5 stuck invocations; its {k}. *_RECOVERY write fails with 'database is locked' (the run {out1}); the next run "
+                               f"{out2}: {len(stuck)} invocation(s) still in a *_RECOVERY status, {len(lost)} available but in no queue (statuses {sorted(st.values())})",
+                               {"scenario": "fault-inside-recovery-run", "backend": kind, "kind": rk, "fault_at_write": k})
+
+
+def live_runner_real_loop(ctx: Ctx) -> None:
+    """the REAL `run()` loop of a thread runner that has just started (real time, slow loop): as soon as one of its invocations is
+    RUNNING, another runner executes the running-recovery task.  The owner is alive: it must be an active runner with a heartbeat,
+    the scan must not select its invocation, which stays RUNNING under it and completes once."""
+    import threading
+
+    from pynenc import context, core_tasks
+
+    for kind in ("mem", "sqlite"):
+        app = make_app(kind, ctx.tmp, app_id=f"c04real{kind}", runner_cls="ThreadRunner", runner_loop_sleep_time_sec=1.5, max_pending_seconds=3600.0)
+        t = app.task(T.c11_slow)
+        inv = t("ok", 1.0)
+        o = app.orchestrator
+        th = threading.Thread(target=app.runner.run, daemon=True)
+        th.start()
+        t0 = _time.time()
+        while _time.time() - t0 < 10 and o.get_invocation_status(inv.invocation_id).value != "running":
+            _time.sleep(0.005)
+        rec0 = o.get_invocation_status_record(inv.invocation_id)
+        active = [r.runner_id for r in o.get_active_runners()]
+        selected = inv.invocation_id in set(o.get_running_invocations_for_recovery())
+        context.set_current_app(app)
+        context.set_runner_context(app.app_id, rctx("other-runner"))
+        o.register_runner_heartbeats(["other-runner"])
+        try:
+            core_tasks.recover_running_invocations()
+        except BaseException:  # noqa: BLE001
+            pass
+        rec1 = o.get_invocation_status_record(inv.invocation_id)
+        ctx.count()
+        ctx.distinct((kind, "live-runner-real-loop", selected))
+        bad = rec0.status.value == "running" and (selected or rec0.runner_id not in active or (rec1.status.value, rec1.runner_id) not in (("running", rec0.runner_id), ("success", None)))
+        try:
+            app.runner.stop_runner_loop()
+        except Exception:  # noqa: BLE001
+            pass
+        th.join(8)
+        if bad:
+            ctx.report(f"live-runner-recovered[{kind}]:fresh-runner", f"[{kind}] a thread runner that has just started holds a RUNNING invocation (owner {rec0.runner_id}, active runners {active}): the running-recovery scan "
+                                                                      f"{'selected' if selected else 'did not select'} it; after another runner's recovery run it is {rec1.status.value}/{rec1.runner_id}",
+                       {"scenario": "live-runner-real-loop", "backend": kind})
 
 
 def two_recovery_runs(ctx: Ctx, clock: VirtualClock) -> None:
